@@ -53,6 +53,11 @@ CHECKS = {
    text="Prefixes, single-token deletions/duplications/substitutions, character-level edits (NUL, multi-byte UTF-8, CRLF), numeric extremes in numeric positions, splices, token soup and 36 nesting ladders (value / pattern / type positions, depth <= 100) are parsed and, when accepted, compiled in the release profile inside child processes; no panic or abort may occur, every parse error position must lie inside the input and agree with its line, and ladders are judged by a scaling test (x4 per 4 levels twice and > 1 h extrapolated). Seven exponential parenthesised-type ladders are recorded as known findings.",
    design="§3 C18, §2.8",
    note="Slow/stalled non-ladder inputs are inconclusive. The libFuzzer job sketched in DESIGN is not built (mutation families + corpus play that role)."),
+ "C17": dict(
+   technique="runtime monitoring: metamorphic oracle (parse / re-format / canonical-AST equality) + comment-order monitor with an interpolation-aware lexer over corpus-derived sources, with comment shrinking for root-cause signatures",
+   text="Sources derived from the corpus of the current tree (trivia injected at token boundaries, dense comments, stretched identifiers across the 40/50/100-column thresholds, layout rewrites, string/escape/hole/multi-line shapes) are formatted; the output must parse, be a fixpoint, have the same canonical AST, and carry every input comment in order and nothing else. Violations are shrunk (comments removed while the violation persists) and keyed by (kind, syntactic context of the remaining comment); 32 such classes of pre-existing formatter defects are listed as known findings, two were repaired.",
+   design="§3 C17",
+   note="Because many comment-placement contexts are already broken, a regression inside an already-listed (kind, context) class is masked; new classes are reported. Comment rule skipped when a pattern string contains `{`."),
 }
 
 NOT_BUILT = "check not built yet in this round (work in progress; see DESIGN.md §6 build order)"
